@@ -167,7 +167,9 @@ func c20Standalone(sel int, seed []byte) func() *c20Val {
 		}),
 		// numeric arguments beyond what the wire field can hold (the constructors take them; an encoder may clamp,
 		// wrap or truncate the encoded value, but neither encoding nor printing may rewrite the option that is read)
-		v6(func() dhcpv6.Option { return dhcpv6.OptElapsedTime(20*time.Minute + time.Duration(len(seed))*time.Millisecond) }),
+		v6(func() dhcpv6.Option {
+			return dhcpv6.OptElapsedTime(20*time.Minute + time.Duration(len(seed))*time.Millisecond)
+		}),
 		v6(func() dhcpv6.Option { return dhcpv6.OptElapsedTime(655360 * time.Millisecond) }),
 		v6(func() dhcpv6.Option { return dhcpv6.OptInformationRefreshTime((1<<33 + 7) * time.Second) }),
 		v6(func() dhcpv6.Option {
